@@ -2519,3 +2519,90 @@ Section C31.
     rewrite H2. replace (lvl =? 0) with false; [reflexivity|]. symmetry. apply Z.eqb_neq. lia.
   Qed.
 End C31.
+
+(* ------------------------------------------------------------------------------------------------ *)
+(* C31: a class of actions (e.g. those on summary tables) that is only ever issued in an indirect context is
+   never marked direct *)
+
+Definition flags_ok (P : action -> bool) (p : list action * list bool) : Prop :=
+  Forall (fun q => P (fst q) = true -> snd q = false) (combine (fst p) (snd p)).
+
+Definition levent_ok (P : action -> bool) (le : levent) : Prop :=
+  match le with
+  | LAppend a lvl => P a = true -> 0 < lvl
+  | LCreate a => P a = false
+  | LFlush _ | LTrim _ => True
+  end.
+
+Lemma combine_app_same : forall {A B} (l1 l1' : list A) (l2 l2' : list B),
+  length l1 = length l2 -> combine (l1 ++ l1') (l2 ++ l2') = combine l1 l2 ++ combine l1' l2'.
+Proof.
+  intros A B l1. induction l1 as [|x l1 IH]; intros l1' l2 l2' H; destruct l2 as [|y l2]; try discriminate; cbn.
+  - reflexivity.
+  - f_equal. apply IH. cbn in H. lia.
+Qed.
+
+Lemma combine_firstn' : forall {A B} n (l1 : list A) (l2 : list B),
+  combine (firstn n l1) (firstn n l2) = firstn n (combine l1 l2).
+Proof.
+  intros A B n. induction n as [|n IH]; intros l1 l2; [reflexivity|].
+  destruct l1 as [|x l1]; [reflexivity|]. destruct l2 as [|y l2]; [reflexivity|]. cbn. f_equal. apply IH.
+Qed.
+
+Lemma Forall_firstn' : forall {A} (Q : A -> Prop) n l, Forall Q l -> Forall Q (firstn n l).
+Proof.
+  intros A Q n. induction n as [|n IH]; intros l H; [constructor|]. destruct l as [|x l]; [constructor|].
+  inversion H; subst. cbn. constructor; [assumption|]. apply IH. assumption.
+Qed.
+
+Lemma lstep_flags : forall P le p,
+  length (fst p) = length (snd p) -> flags_ok P p -> levent_ok P le -> flags_ok P (lstep le p).
+Proof.
+  intros P le [st di] Hlen Hf Hok. unfold flags_ok in *. cbn [fst snd] in *. destruct le; cbn [lstep fst snd levent_ok] in *.
+  - rewrite combine_app_same by exact Hlen. apply Forall_app. split; [exact Hf|]. cbn. constructor; [|constructor].
+    cbn. intro HP. apply Hok in HP. apply Z.eqb_neq. lia.
+  - rewrite combine_app_same by exact Hlen. apply Forall_app. split; [exact Hf|]. cbn. constructor; [|constructor].
+    cbn. intro HP. congruence.
+  - rewrite combine_app_same by exact Hlen. apply Forall_app. split; [exact Hf|].
+    apply Forall_forall. intros [a d] Hin. cbn. intros _. apply in_combine_r in Hin. eapply repeat_spec. exact Hin.
+  - rewrite combine_firstn'. apply Forall_firstn'. exact Hf.
+Qed.
+
+Section C31b.
+  Variable td : str -> V.
+
+  Definition event_ok (P : action -> bool) (e : event) : Prop :=
+    match e with
+    | EDoc a lvl _ | EDocFail a lvl => P a = true -> 0 < lvl
+    | ECreate a => P a = false
+    | _ => True
+    end.
+
+  Lemma step_flags : forall P e s s',
+    parallel s -> flags_ok P (s_stored s, s_direct s) -> event_ok P e -> step td e s = Ok s' ->
+    flags_ok P (s_stored s', s_direct s').
+  Proof.
+    intros P e s s' Hp Hf Hok H. apply step_log in H. destruct H as [H|[le [H Hshape]]].
+    - rewrite H. exact Hf.
+    - rewrite <- H. apply lstep_flags; [exact Hp|exact Hf|].
+      destruct e; cbn [event_ok] in Hok; try contradiction.
+      + subst le. exact Hok.
+      + subst le. exact Hok.
+      + subst le. exact Hok.
+      + destruct Hshape as [acts E]. subst le. exact I.
+      + destruct Hshape as [acts E]. subst le. exact I.
+      + subst le. exact I.
+  Qed.
+
+  Theorem class_nondirect : forall P es s s',
+    parallel s -> flags_ok P (s_stored s, s_direct s) -> Forall (event_ok P) es -> run td s es = Ok s' ->
+    flags_ok P (s_stored s', s_direct s').
+  Proof.
+    intros P es. induction es as [|e es IH]; intros s s' Hp Hf Hok H; cbn in H.
+    - inversion H; subst. exact Hf.
+    - destruct (step td e s) as [s1|] eqn:E; [|discriminate]. inversion Hok; subst.
+      apply (IH s1 s'); try assumption.
+      + eapply step_parallel; eassumption.
+      + eapply step_flags; eassumption.
+  Qed.
+End C31b.
